@@ -399,14 +399,38 @@ pub fn f_run(c: &FCase) -> Outcome {
     Ok(obs)
 }
 
+/// scope of the bounded-exhaustive sub-check: every labelled digraph on 1..=4 nodes and every
+/// labelled undirected graph on 1..=5 nodes (6 in the thorough tier), loops included
+fn scope(tier: Tier) -> (usize, usize) {
+    if tier == Tier::Quick {
+        (4, 5)
+    } else {
+        (4, 6)
+    }
+}
+fn m_enum_count(tier: Tier) -> u64 {
+    small_graph_count(0, scope(tier).1) * 5 + small_simple_und_count(7)
+}
+fn m_enum_make(tier: Tier, i: u64) -> MCase {
+    let first = small_graph_count(0, scope(tier).1) * 5;
+    if i < first {
+        let (dir, n, mask) = small_graph(i / 5, 0, scope(tier).1).expect("index within the scope");
+        MCase { g: raw_explicit(dir, n, mask, 0), enc: (i % 5) as u8, salt: (i % 251) as u8, blossom: 0 }
+    } else {
+        let (n, mask) = small_simple_und(i - first, 7).expect("index within the scope");
+        MCase { g: raw_explicit_und_loopless(n, mask, 0), enc: ((i / 3) % 5) as u8, salt: (i % 251) as u8, blossom: 0 }
+    }
+}
+
 pub fn property() -> Property {
     Property {
         id: "C15",
-        rule: "matching: random multigraphs with loops (0..=11 nodes quick) plus optional odd-cycle-with-stem gadgets, stored as Graph / StableGraph+MatrixGraph with vacancies / GraphMap / Csr in directed and undirected form; the Matching is validated from mate() alone and all accessors cross-checked; maximum_matching size compared with a bitmask DP (undirected storage); non-trivial = greedy < maximum, or optimum >= 2 with a cycle. flow: random directed multigraphs (2..=8 nodes, capacities 0..=9 as u32 and exact f64, parallel/antiparallel edges, loops) in Graph and StableGraph with node and edge vacancies, every s != t; capacity, conservation, value = net outflow = min over all 2^(n-2) cuts; non-trivial = 0 < value < total source capacity; distinct by case fingerprint",
+        rule: "matching: random multigraphs with loops (0..=11 nodes quick) plus optional odd-cycle-with-stem gadgets, stored as Graph / StableGraph+MatrixGraph with vacancies / GraphMap / Csr in directed and undirected form; the Matching is validated from mate() alone and all accessors cross-checked; maximum_matching size compared with a bitmask DP (undirected storage); non-trivial = greedy < maximum, or optimum >= 2 with a cycle. flow: random directed multigraphs (2..=8 nodes, capacities 0..=9 as u32 and exact f64, parallel/antiparallel edges, loops) in Graph and StableGraph with node and edge vacancies, every s != t; capacity, conservation, value = net outflow = min over all 2^(n-2) cuts; non-trivial = 0 < value < total source capacity; distinct by case fingerprint; bounded-exhaustive sub-check (matching): every undirected graph with loops on 1..=5 nodes (6 thorough) x 5 encodings and every loop-free graph on 1..=7 nodes",
         assumptions: &["maximality is asserted only on undirected storage (greedy/maximum matching use neighbors(), i.e. outgoing edges, on directed storage; the property says direction is ignored for validity)"],
         both_profiles: false,
         subs: vec![
             sub("matching/validity+maximum", 3_000_000, 30_000_000, m_strategy, m_run),
+            sub_enum("matching/all-small-graphs", m_enum_count, m_enum_make, m_run),
             sub("flow/ford_fulkerson", 3_000_000, 30_000_000, f_strategy, f_run),
         ],
     }
